@@ -85,4 +85,31 @@ def inline_new_helpers(prog):
                 changed = True
         if not changed:
             break
+    # a helper that is now spliced into every caller is no function of its own any more: inventories (who writes a
+    # field, who calls an unchecked lookup, which panic sites are reachable) see its body in the callers only
+    still = set()
+    for k, f in prog.fns.items():
+        for b in f["blocks"]:
+            t = b["term"]
+            if t["k"] == "call":
+                ck = t["callee"].get("key")
+                if ck in new and ck != k:
+                    still.add(ck)
+                for a in t["args"]:
+                    if a.get("k") == "const" and a.get("fn") in new:
+                        still.add(a["fn"])
+            for st in b["stmts"]:
+                for a in st["rv"].get("a", []):
+                    if a.get("k") == "const" and a.get("fn") in new:
+                        still.add(a["fn"])
+    inlined_callees = {c for _, c in done}
+    for ck in sorted(inlined_callees - still):
+        f = prog.fns.get(ck)
+        if f is None or f.get("is_pub") and False:
+            continue
+        del prog.fns[ck]
+        prog.fn_crate.pop(ck, None)
+        for k in [k for k in prog.fns if k.startswith(ck + "::promoted[")]:
+            pass        # promoted constants stay addressable
+        prog.removed_helpers.append(ck)
     return done
